@@ -80,7 +80,7 @@ def gen_workload(rng, big=False, devel=False, same_prefix=False, extended=True, 
             if rng.chance(1, 3):
                 side = rng.choice(['v1', 'v2', 'v2'])
                 if f[side]:
-                    f[side] = f[side].split('_')[0] + '_nodbg'
+                    f[side] = f[side] + '_nodbg'
     dirlink = None
     if extended and layout != 'flat' and rng.chance(1, 4):
         # a directory of one package is also reachable through a symbolic link (lib64 -> lib): abipkgdiff walks the tree
